@@ -235,6 +235,29 @@ def run(ctx):
     from lib.peg import Grammar as Grammar_
     P_.L1_tokens(_Only(ctx, lambda k: any(("[%s]" % o) in k for o in ("Via", "Where", "Into")) or k == "binary-token-tables"), "C13.R9", core, Grammar_(ctx.grammar))
 
+    # ---------------- R10 what every calling form shares: one call protocol, decided inside FunctionDef::call
+    ctx.rule("C13.R10", "the forms cannot disagree about what FunctionDef::call decides, because only it decides it: check_arity has no caller outside FunctionDef::call (an up-front arity check in one form answers for lists whose elements the sibling form never visits: `[] where p`); a built-in is handed the caller's environment, so the callbacks of map / filter / reduce resolve late-bound names as the operator forms do; and the parameters are bound after the function's own name, so a callback whose parameter is spelled like the function still receives the element", floor=3)
+    from lib import mir as M_
+    cg_ = M_.CallGraph([core])
+    CHK = "blots_core::functions::FunctionDef::check_arity"
+    callers = sorted(n_ for n_, outs_ in cg_.out.items() if CHK in outs_ and "::tests::" not in n_)
+    extra = [n_ for n_ in callers if (cg_.fns.get(n_, {}).get("parent") or n_) != FCALL]
+    ctx.inst("C13.R10", "check_arity#callers", (not extra) if callers else None, "check_arity is called from %s%s" % ([c_.replace("blots_core::", "") for c_ in callers], "" if not extra else ": a pre-check outside FunctionDef::call"), None)
+    fcm = M_.Fn(core.mir_fn(FCALL), FCALL)
+    hfc_ = core.hir_fn(FCALL)
+    envp_ = [i_ for i_, t_ in enumerate(hfc_["inputs"]) if "environment::Environment" in t_]
+    for b_ in fcm.calls_to(BCALL):
+        args_ = fcm.term(b_)["args"]
+        envargs = [a_ for a_, t_ in zip(args_, fcm.term(b_).get("argtys") or []) if "environment::Environment" in t_]
+        if not envargs or not envp_:
+            ctx.inst("C13.R10", "builtin#environment", None, "environment argument of BuiltInFunction::call not identified", fcm.loc(b_))
+            continue
+        roots_ = fcm.trace(envargs[0])
+        from_param = bool(roots_) and all(r_[0] == "param" for r_ in roots_)
+        fresh = any(r_[0] == "call" and "environment::Environment" in r_[1] for r_ in roots_)
+        ctx.inst("C13.R10", "builtin#environment", True if from_param else (False if fresh else None), "BuiltInFunction::call receives %s (must be the caller's environment: higher-order built-ins evaluate their callbacks in it)" % [r_[:2] for r_ in roots_], fcm.loc(b_))
+    c04.parameters_last(ctx, "C13.R10", core)
+
     # ---------------- R4 depth policy
     ctx.rule("C13.R4", "equivalent forms account call depth alike: the operator forms and the built-in forms pass the same depth to the callback", floor=2)
     deps = {}
